@@ -5,7 +5,7 @@ from mc import core, det, vnet, fe, xstate
 PROPERTY = 'C10'
 ENGINE = 'E2 explicit-state search (BFS to fixpoint + all histories to depth k, no dedup) over the real connection handler on the E3 virtual network, one connection at a time'
 LEVEL = 'model_checking'
-ALPHABET = ['config1', 'config2', 'upload1', 'upload2', 'search', 'reconnect-before-cleanup', 'reconnect-after-cleanup', 'foreign-sid', 'unknown-type',
+ALPHABET = ['config1', 'config2', 'upload1', 'upload2', 'search', 'search-other', 'reconnect-before-cleanup', 'reconnect-after-cleanup', 'foreign-sid', 'unknown-type',
             'config-malformed', 'upload-malformed', 'search-malformed', 'no-sid', 'config-unstorable']
 DEPTH = {'quick': 4, 'thorough': 5}
 
@@ -140,6 +140,12 @@ class ServerSystem:
             s.conn.send('token', fx.tok, token_digest=fx.tok_digest)
             accept = md['state'] == 2
             reply_type = 'result'
+        elif ev == 'search-other':
+            # another keyword's token under the SAME correlation value: token_digest is an opaque field the server echoes, the
+            # answer has to come from the token
+            s.conn.send('token', fx.tok2, token_digest=fx.tok_digest)
+            accept = md['state'] == 2
+            reply_type = 'result'
         elif ev == 'foreign-sid':
             # three foreign service ids, two of them adversarially close to the connection's own: same first 8 characters (what the
             # logs print), the other case, and an unrelated one
@@ -217,8 +223,9 @@ class ServerSystem:
                 elif ev.startswith('upload'):
                     md['state'], md['edb'] = 2, which
                 else:
-                    if result != fx.answer(md['edb']):
-                        probs.append(('search-not-from-accepted-index', ev, fx.answer(md['edb']), result))
+                    want = fx.answer(md['edb'], fx.kw2 if ev == 'search-other' else None)
+                    if result != want:
+                        probs.append(('search-not-from-accepted-index', ev, want, result))
         else:
             if acked:
                 probs.append(('invalid-request-acknowledged', '%s/state%d' % (ev, md['state']), 'refusal or closure', 'acknowledged' if result is None else result))
